@@ -27,7 +27,10 @@
 // Observables: GetInfo() at each quiescent point (op mb-cb) and the complete
 // membershipChanged event list of every instance (ops mb-cb-ev).
 // mb-cb-tie forces equal clusterJoinTime values by rewriting the index document
-// (sim.KVGet/KVPut) and reports whether two members hold the same number (F8).
+// (sim.KVGet/KVPut) and reports whether two members hold the same number.  Since
+// commit 23681a3 (monitor breaks ties by instance id) the expected report is
+// `tied N distinct`; `tied N same k/N` is finding F8 (fixed) having returned and is
+// answered by the Lean driver with FAIL C10.tie-inconsistent.
 package main
 
 import (
@@ -102,7 +105,7 @@ type cbScenario struct {
 
 	insts      []*cbInst
 	sinceDeath bool
-	tieOnRead  bool // every index read sees all join times equal (F8 experiment)
+	tieOnRead  bool // every index read sees all join times equal (tie experiment, finding F8 – fixed)
 	conflicts  int  // CAS conflicts still to be injected into index rewrites
 	injected   int  // conflicts injected so far
 	noCas      bool // an index rewrite (set-doc) arrived without a CAS
@@ -488,8 +491,10 @@ func cbRunScript(group, script string, conflicts int) (obs string, evLines [][2]
 	return obs, evLines
 }
 
-// F8: n members, then every clusterJoinTime in the index document forced to 42
-// again and again for a few seconds; do two members hold the same number?
+// Tie experiment (finding F8, fixed by commit 23681a3): n members, then every
+// clusterJoinTime in the index document forced to 42 again and again for a few
+// seconds; do two members hold the same number?  With the id tie-break every member
+// derives the same order from the same index, so the answer must be no.
 func cbRunTie(group string, n int) string {
 	sc, err := newCbScenario(group)
 	if err != nil {
@@ -530,7 +535,7 @@ func cbRunTie(group string, n int) string {
 	// from now on EVERY index read of every member sees equal join times (the
 	// members' own rewrites put the real values back; the next read ties them
 	// again).  The first rounds after the switch are a transition (members move
-	// from join order to whatever a tie gives, not all at the same instant) and
+	// from join order to id order, not all at the same instant) and
 	// are not judged; afterwards any two members holding the same (number,total)
 	// in two consecutive polls is the inconsistency.
 	sc.mu.Lock()
